@@ -12,7 +12,7 @@ import os, json, tempfile, shutil
 from framework import coq_bs, coq_z
 
 ID = 'C14'
-COQ_IMPORTS = ['C14_Model', 'C14_Text']
+COQ_IMPORTS = ['C14_Model', 'C14_Text', 'C14_Ops']
 GENERATORS = ['gen_codes', 'gen_flags', 'gen_sjson']
 STRANDS = '+-.?'
 RULE = ('object graphs built from an abstract tree: (x) the exhaustive box of all 4 strands x 256 defect sets on a two-location feature '
@@ -35,10 +35,18 @@ RULE = ('object graphs built from an abstract tree: (x) the exhaustive box of al
         "sugar.read, results AND exception classes compared. Compared by value AND JSON type (0, False, 0.0, None, '' pairwise different) modulo "
         "'_'-prefixed keys and key order. non-trivial = distinct in-domain case with at least one marker (minus/unstranded location, defect, location "
         'metadata, several locations, nesting depth >= 2, private key dropped, Attr inside list, type differing from the inferred one; any history; '
-        'any hand-written tree by result class)')
-TRUSTED = ['CPython json text layer: json.dump calls default() exactly on non-native objects (Strand=StrEnum and Defect=IntFlag are written '
-           'natively as string and number, LocationTuple as an array), json.load applies object_hook bottom-up, text/escapes/number '
-           'printing and float repr round-trip (floats are opaque tokens in the model, compared by repr)',
+        'any hand-written tree by result class). ROUND 7: every basket case also compares the WRITTEN BYTES with the Gallina printer (taken from a freshly built '
+        'object; every file transport must carry the same bytes as tofmtstr); (b) border stream: baskets violating exactly the clauses one strand per '
+        'feature / locations in order / no lower-case residue, built by editing public Location attributes and seq.data in place; (p) pre-history stream: '
+        '1-4 public operations (Feature.rc, FeatureList.rc, ft.locs = [...], seq.meta[k] = v, basket.meta[k] = v; valid and out-of-range indexes, several '
+        'strands) on a fresh basket, then bytes, graph at the moment of writing and read-back compared with the model of the operations; (f) the whole '
+        'flag set through Defect._reverse / Strand._reverse; (l) json.loads of texts in default / compact / indented / raw (ensure_ascii=False) / padded / '
+        'randomly mutated / hand-written invalid form against the Gallina scanner; (n) Python values with tuples and int/float/bool/None keys through '
+        'json.dumps/json.loads and through the metadata of a basket written and read by sugar.')
+TRUSTED = ['CPython json: json.dump calls default() exactly on non-native objects (Strand=StrEnum and Defect=IntFlag are written '
+           'natively as string and number, LocationTuple as an array), json.load applies object_hook bottom-up; the text itself (escapes, separators, '
+           'number and constant printing, scanner) is MODELLED in model/C14_Text.v and compared on every run; the digits float.__repr__ chooses and '
+           'float(repr(x)) == x stay trusted (floats are opaque literals)',
            'CPython keyword-argument binding (cls(**d)), dict insertion order, enum value lookup Strand(v)/Defect(v), sorted() stability',
            'modelled: _SJSONEncoder.default, _json_hook, write_sjson/_fmtcomment, read_sjson (sjson.py:25-86); constructors run by the hook: '
            'Attr.__init__/__setitem__/update (meta.py:31-74), Location.__init__ and property setters (fts.py:84-149), LocationTuple.__new__ '
@@ -46,7 +54,8 @@ TRUSTED = ['CPython json text layer: json.dump calls default() exactly on non-na
            'BioBasket.__init__ (seq.py:647-661); read glue seqs=BioBasket(seqs); seq.meta._fmt=fmt (_io/main.py:327-330)',
            'file transports, encodings and archive handling of write()/read()/tofmtstr()/fromfmtstr() (exercised by every case through 12 transports, '
            'not modelled; C03); the head of the written text (brace, quoted key, separator, value) is modelled as text_head and checked on every case']
-ASSUMPTIONS = ['Python str restricted to Latin-1 code points; dict keys are str',
+ASSUMPTIONS = ['Python str restricted to Latin-1 code points; dict keys are str and sequences are lists: json.dump also accepts tuples and int/float/'
+               'bool/None keys but returns them as lists / str keys (C14_native_roundtrip_iff, C14_nonstr_keys_outside), so they are outside',
                'object graphs reachable through the constructors: residues upper-case ASCII (BioSeq.__init__ upper-cases; seq.str.lower() '
                'leaves this domain and is NOT preserved), meta.id present, type in {nt, aa}, one strand per feature with locations in '
                "5'->3' order (LocationTuple invariant), mappings directly inside Attr are Attr, defect sets 0..255",
@@ -84,7 +93,13 @@ LEVEL_TEXT = ('Machine-checked Coq theorems over all object graphs of the domain
               'unreadable, ValueError (C14_mixed_strands_unreadable: must stay out); residues are read back upper-cased, equal exactly when no lower-case '
               'ASCII letter occurs (C14_lowercase_residues_uppercased: must stay out). Tied by the border stream: graphs violating exactly these clauses, '
               'built by editing public Location attributes / seq.data in place, compared with the model (bytes, result, ValueError) and with a '
-              'first-principles expectation (upper-cased, stably sorted).')
+              'first-principles expectation (upper-cased, stably sorted). LocationTuple on ANY argument (locations given as lists are coerced first) returns '
+              'such a tuple (C14_locationtuple_ordered_any). BASKETS WITH A HISTORY (round 7): Strand and Defect values over the regenerated flag tables '
+              'are closed under _reverse (involutions) and under MISS_LEFT/MISS_RIGHT marking (C14_flags_closed); every modelled public operation -- '
+              'Feature.rc, FeatureList.rc, assignment to Feature.locs, item assignment on sequence and basket metadata with its dict -> Attr conversion -- '
+              'keeps a basket inside the domain (C14_preop_keeps_domain), so after ANY number of them in ANY order write -> read returns the basket as it '
+              'is at the moment of writing (C14_prehistory_roundtrip, induction over the history); tied by the pre-history stream and the exhaustive '
+              'flag stream.')
 LEVEL_NOTE = ('Trusted: Coq kernel/vm_compute, tools/gen_data.py + tools/gens/c14.py (constants), the correspondence harness, CPython json/kwargs/enum. '
               'Modelled rather than verified: sjson.py, the constructors listed in trusted_base and CPython json (encoder/scanner, model/C14_Text.v; the '
               'digits of a float literal are decided by CPython and opaque, code points beyond Latin-1 are outside the model str). Tested only (not proved): '
@@ -104,7 +119,8 @@ MODELLED_FUNCS = {
     'sugar/_io/sjson.py': ['_SJSONEncoder.default', '_json_hook', 'is_sjson', 'read_sjson', 'write_sjson'],
     'sugar/core/meta.py': ['Attr.__init__', 'Attr.__setitem__', 'Attr.update'],
     'sugar/core/fts.py': ['Location.__init__', 'Location.meta', 'Location.strand', 'Location.defect', 'LocationTuple.__new__',
-                          'Feature.__init__', 'FeatureList.__init__'],
+                          'Feature.__init__', 'FeatureList.__init__', 'Defect._reverse', 'Strand._reverse', 'Location._reverse',
+                          'LocationTuple._reverse', 'Feature.rc', 'Feature.locs', 'FeatureList.rc'],
     'sugar/core/seq.py': ['BioSeq.__init__', 'BioBasket.__init__'],
 }
 RESERVED = ['clear', 'copy', 'get', 'items', 'keys', 'pop', 'popitem', 'setdefault', 'tostr', 'update', 'values']
@@ -200,6 +216,12 @@ def model_term(case):
         if case.get('kind') == 'native':
             check_pshape(case['v'])
             return 'out (run_C14_native %s)' % pterm(case['v'])
+        if case.get('kind') == 'flags':
+            assert type(case['d']) is int and 0 <= case['d'] < 256 and case['s'] in STRANDS
+            return 'out (run_C14_flags %s %s)' % (coq_z(case['d']), coq_bs(case['s']))
+        if case.get('kind') == 'preop':
+            check_shape(case['b'], 'BioBasket')
+            return 'out (run_C14_preop %s [%s])' % (term(case['b']), '; '.join(op_term(o) for o in case['ops']))
         check_shape(case['b'], 'BioBasket')
         assert case.get('via', 'file') in VIAS
         if case.get('kind') == 'border':
@@ -212,6 +234,10 @@ def model_term(case):
 def split_model(case, m):
     if case.get('kind') == 'hist' and not isinstance(m[0], bool):
         return all(bool(e[0]) for e in m), [e[1] for e in m]
+    if case.get('kind') == 'flags':
+        return True, m
+    if case.get('kind') == 'preop':
+        return bool(m[0]), m
     if case.get('kind') in ('loads', 'native'):
         return len(m) > 2 or isinstance(m[1], dict) and m[1].get('e') != 'Malformed', m      # tie streams of the text layer: always compared
     if len(m) == 3:
@@ -424,6 +450,11 @@ def impl(case):
         return impl_loads(case)
     if case.get('kind') == 'native':
         return impl_native(case)
+    if case.get('kind') == 'flags':
+        from sugar.core.fts import Defect, Strand
+        return [Defect(case['d'])._reverse().value, Strand(case['s'])._reverse().value]
+    if case.get('kind') == 'preop':
+        return impl_preop(case)
     g = case['b']
     check_shape(g, 'BioBasket')
     assert case.get('via', 'file') in VIAS
@@ -453,14 +484,36 @@ def agree(case, implval, modelval):
         return agree_loads(implval, modelval)
     if case.get('kind') == 'native':
         return agree_native(implval, modelval)
+    if case.get('kind') == 'flags':
+        return implval == modelval
+    if case.get('kind') == 'preop':
+        return agree_preop(implval, modelval)
     if _is_t(modelval):
         if isinstance(implval, dict):
             return isinstance(modelval[2], dict)
-        return (_is_t(implval) and not isinstance(modelval[2], dict) and implval[1] == modelval[1]        # the bytes
+        return (_is_t(implval) and not isinstance(modelval[2], dict) and _same_text(implval[1], modelval[1])     # the bytes
                 and _diff(canon(implval[2]), canon(modelval[2])) is None)
     if isinstance(implval, dict) or isinstance(modelval, dict):
         return isinstance(implval, dict) and isinstance(modelval, dict)      # raises / does not raise
     return _diff(canon(_unt(implval)), canon(modelval)) is None            # value AND JSON type (0 is not False)
+
+
+TEXT_STATS = {'bytes_equal': 0, 'equal_up_to_key_order': 0, 'different': 0}
+
+
+def _same_text(real, model):
+    """the written bytes equal the bytes of the Gallina printer; a text that differs ONLY in the order of the entries of its
+    objects (dict ordering: the property is silent about it) is accepted and counted separately"""
+    if real == model:
+        TEXT_STATS['bytes_equal'] += 1
+        return True
+    try:
+        kw = dict(parse_float=lambda t: ('f', t), parse_constant=lambda t: ('c', t))
+        same = json.loads(real, **kw) == json.loads(model, **kw) and sorted(real) == sorted(model)
+    except Exception:
+        same = False
+    TEXT_STATS['equal_up_to_key_order' if same else 'different'] += 1
+    return same
 
 
 def _is_t(v):
@@ -491,6 +544,10 @@ def spec(case, got):
         return None                  # tie of the text layer model to CPython json; no property clause of its own
     if case.get('kind') == 'native':
         return spec_native(case, got)
+    if case.get('kind') == 'flags':
+        return spec_flags(case, got)
+    if case.get('kind') == 'preop':
+        return spec_preop(case, got)
     got = _unt(got)
     if case.get('kind') == 'json':
         # no write side: the oracle is only "never raises outside the documented exception classes"
@@ -510,11 +567,12 @@ def spec(case, got):
                 return 'step %d (%s): %s %s' % (n, st['op'], 'object after the edit is not the edited graph' if exact else 'expected vs read back', d[:260])
         return None
     if case.get('kind') == 'border':
-        exp = border_expected(case['b'])
-        if exp is None:
+        exp, bad_pub, bad_priv = border_expected(case['b'])
+        if bad_pub:
             return None if isinstance(got, dict) and got['e'] == 'ValueError' else 'a feature with several strands was read back without ValueError'
         if isinstance(got, dict):
-            return 'raised %s' % got['e']
+            # several strands only below a '_'-prefixed key: the writer may or may not drop it
+            return None if bad_priv and got['e'] == 'ValueError' else 'raised %s' % got['e']
         d = _diff(canon(expected_snapshot(exp)), canon(got))
         return ('border case: expected (residues upper-cased, locations in order) vs read back ' + d[:300]) if d else None
     if isinstance(got, dict):
@@ -526,24 +584,27 @@ def spec(case, got):
 
 def border_expected(g):
     """first principles for graphs at the border of the domain: reading upper-cases the residues and puts the locations of every
-    feature into the order of transcription (stable); a feature with several strands cannot be read (None)"""
-    bad = []
+    feature into the order of transcription (stable); a feature with several strands cannot be read.
+    Returns (expected graph, several strands somewhere public, several strands below a private key)"""
+    bad = {True: 0, False: 0}
 
-    def rec(v):
+    def rec(v, priv):
         if isinstance(v, list) and v:
             if v[0] == 'Feature':
-                locs = [rec(l) for l in v[2]]
+                locs = [rec(l, priv) for l in v[2]]
                 if len(set(l[3] for l in locs)) > 1:
-                    bad.append(1)
-                return ['Feature', rec(v[1]), sort_locs(locs)]
+                    bad[priv] += 1
+                return ['Feature', rec(v[1], priv), sort_locs(locs)]
             if v[0] == 'BioSeq':
-                return ['BioSeq', v[1].upper(), v[2], rec(v[3])]
+                return ['BioSeq', v[1].upper(), v[2], rec(v[3], priv)]
             if v[0] == 'f':
                 return v
-            return [rec(x) for x in v]
+            if v[0] in ('d', 'Attr', 'Meta'):
+                return [v[0]] + [[k, rec(x, priv or (isinstance(k, str) and k.startswith('_')))] for k, x in v[1:]]
+            return [rec(x, priv) for x in v]
         return v
-    out = rec(g)
-    return None if bad else out
+    out = rec(g, False)
+    return out, bool(bad[False]), bool(bad[True])
 
 
 # ----------------------------------------------------------------------------- statistics
@@ -581,6 +642,10 @@ def nontrivial(case, got):
     got = _unt(got)
     if isinstance(got, dict):
         return None
+    if case.get('kind') == 'flags':
+        return ['flags', case['d'], case['s']]
+    if case.get('kind') == 'preop':
+        return ['preop'] + sorted(set(o[0] for o in case['ops']))
     if case.get('kind') in ('loads', 'native'):
         return [case['kind'], str(got[0]) if isinstance(got, list) and got else 'x', len(json.dumps(case)) // 40]
     if case.get('kind') == 'json':
@@ -614,6 +679,10 @@ def nontrivial(case, got):
 
 def histkey(case, got):
     got = _unt(got)
+    if case.get('kind') == 'flags':
+        return ['kind=flags']
+    if case.get('kind') == 'preop':
+        return ['kind=preop', 'preopresult=' + (got['e'] if isinstance(got, dict) else 'ok')] + ['preop=' + o[0] for o in case['ops']]
     if case.get('kind') in ('loads', 'native'):
         return ['kind=' + case['kind'], case['kind'] + 'result=' + (got['e'] if isinstance(got, dict) else 'ok')] + \
                (['loadsform=' + case.get('form', '?')] if case.get('kind') == 'loads' else [])
@@ -638,6 +707,12 @@ def histkey(case, got):
 
 def python_snippet(case):
     try:
+        if case.get('kind') == 'flags':
+            return 'from sugar.core.fts import Defect, Strand\nprint(Defect(%d)._reverse().value, Strand(%r)._reverse().value)\n' % (case['d'], case['s'])
+        if case.get('kind') == 'preop':
+            return (PRELUDE + 'b = %s\n' % src(case['b']) + ''.join(op_stmt('b', o) + '\n' for o in case['ops']) +
+                    'from sugar import BioBasket\nb2 = BioBasket.fromfmtstr(b.tofmtstr("sjson"))\nprint(b == b2)\n'
+                    'for s, s2 in zip(b, b2):\n    for f, f2 in zip(s.fts, s2.fts):\n        print(f.locs, f2.locs, [(int(l.defect), dict(l.meta)) for l in f.locs], [(int(l.defect), dict(l.meta)) for l in f2.locs])\n')
         if case.get('kind') == 'loads':
             return 'import json\nprint(repr(json.loads(%r)))\n' % (case['s'],)
         if case.get('kind') == 'native':
@@ -825,7 +900,7 @@ def gen_cases(rng, tier):
     for i in range(nmut):
         opts = {rng.choice(['badkey', 'lower', 'noid', 'mixed', 'unsorted', 'dict_in_attr', 'cls_in_dict', 'badtype']): rng.choice([0.15, 0.5])}
         cases.append({'kind': 'mut', 'via': rng.choice(VIAS), 'b': g_basket(rng, opts, rng.choice([2, 3]))})
-    for i in range(250 if tier != 'thorough' else 3000):
+    for i in range(250 if tier != 'thorough' else 1500):
         # the border of the domain: exactly the clauses one strand / in order / no lower-case residue are violated
         opts = {k: rng.choice([0.3, 0.7]) for k in rng.sample(['lower', 'mixed', 'unsorted'], rng.choice([1, 1, 2]))}
         cases.append({'kind': 'border', 'via': rng.choice(VIAS), 'b': g_basket(rng, opts, rng.choice([1, 2, 3]))})
@@ -833,10 +908,14 @@ def gen_cases(rng, tier):
         cases.append(g_history(rng))
     for i in range(500 if tier != 'thorough' else 3000):
         cases.append(g_json_case(rng))
-    for i in range(350 if tier != 'thorough' else 4000):
+    for i in range(350 if tier != 'thorough' else 2500):
         cases.append(g_loads_case(rng))
-    for i in range(250 if tier != 'thorough' else 3000):
+    for i in range(250 if tier != 'thorough' else 1500):
         cases.append(g_native_case(rng))
+    for d in range(256):                                   # Defect._reverse / Strand._reverse: the whole flag set
+        cases.append({'kind': 'flags', 'd': d, 's': STRANDS[d % 4]})
+    for i in range(250 if tier != 'thorough' else 1500):
+        cases.append(g_preop_case(rng))
     return cases
 
 
@@ -1824,6 +1903,155 @@ def g_loads_case(rng):
     return {'kind': 'loads', 'form': form, 's': s}
 
 
+
+# ----------------------------------------------------------------------------- baskets with a history BEFORE the write (kind 'preop')
+# {'kind': 'preop', 'b': g, 'ops': [op...]}; op = ['frc', i, j, L] seqs[i].meta['fts'][j].rc(L) | ['flrc', i, L] seqs[i].meta['fts'].rc(L) |
+# ['setlocs', i, j, [loc...]] ft.locs = [...] | ['smeta', i, k, v] seqs[i].meta[k] = v | ['bmeta', k, v] seqs.meta[k] = v.
+# The real operations run on a freshly built basket; the bytes then written, the graph at that moment and what is read back are compared
+# with the Gallina model of the operations (model/C14_Ops.v); the oracle is the property: read back == as it was when written.
+def op_term(o):
+    from framework import coq_nat
+    t = o[0]
+    if t == 'frc':
+        return '(OpFeatRc %s %s %s)' % (coq_nat(o[1]), coq_nat(o[2]), coq_z(o[3]))
+    if t == 'flrc':
+        return '(OpFtsRc %s %s)' % (coq_nat(o[1]), coq_z(o[2]))
+    if t == 'setlocs':
+        for l in o[3]:
+            check_shape(l, 'Location')
+        return '(OpSetLocs %s %s [%s])' % (coq_nat(o[1]), coq_nat(o[2]), '; '.join(term(l) for l in o[3]))
+    if t == 'smeta':
+        check_shape(o[3])
+        return '(OpSeqMeta %s %s %s)' % (coq_nat(o[1]), coq_bs(o[2]), term(o[3]))
+    if t == 'bmeta':
+        check_shape(o[2])
+        return '(OpBasketMeta %s %s)' % (coq_bs(o[1]), term(o[2]))
+    raise AssertionError('bad op %r' % (t,))
+
+
+def op_stmt(var, o):
+    t = o[0]
+    if t == 'frc':
+        assert type(o[1]) is int and type(o[2]) is int and o[1] >= 0 and o[2] >= 0 and type(o[3]) is int
+        return '%s[%d].meta["fts"][%d].rc(%d)' % (var, o[1], o[2], o[3])
+    if t == 'flrc':
+        assert type(o[1]) is int and o[1] >= 0 and type(o[2]) is int
+        return '%s[%d].meta["fts"].rc(%d)' % (var, o[1], o[2])
+    if t == 'setlocs':
+        assert type(o[1]) is int and type(o[2]) is int and o[1] >= 0 and o[2] >= 0
+        return '%s[%d].meta["fts"][%d].locs = [%s]' % (var, o[1], o[2], ', '.join(src(l) for l in o[3]))
+    if t == 'smeta':
+        assert type(o[1]) is int and o[1] >= 0 and isinstance(o[2], str)
+        return '%s[%d].meta[%r] = %s' % (var, o[1], o[2], src(o[3]))
+    if t == 'bmeta':
+        assert isinstance(o[1], str)
+        return '%s.meta[%r] = %s' % (var, o[1], src(o[2]))
+    raise AssertionError('bad op %r' % (t,))
+
+
+def impl_preop(case):
+    g = case['b']
+    check_shape(g, 'BioBasket')
+    assert isinstance(case['ops'], list) and len(case['ops']) <= 8
+    stmts = [op_stmt('b', o) for o in case['ops']]
+    for o in case['ops']:
+        op_term(o)
+    b0, assign = build(g), False
+    if _diff(snap(b0), expected_snapshot(g)) is not None:
+        b0, assign = build(g, assign=True), True
+    d = _diff(snap(b0), expected_snapshot(g))
+    if d is not None:
+        raise ConstructedGraphDiffers(d)
+    env = {}
+    exec(PRELUDE, env)
+    env['b'] = build(g, assign)                    # a fresh object nobody has looked at
+    for st in stmts:
+        exec(st, env)
+    b = env['b']
+    text = b.tofmtstr('sjson')                     # the bytes first: looking at loc.meta creates the empty Meta lazily
+    s1 = snap(b)
+    b2 = read_text(text, 'str')
+    return ['P', text, s1, snap(b2)]
+
+
+def agree_preop(i, m):
+    if isinstance(i, dict):
+        return len(m) == 2 and isinstance(m[1], dict) and m[1]['e'] == i['e']
+    if len(m) != 4 or isinstance(m[3], dict):
+        return False
+    return _same_text(i[1], m[1]) and _diff(canon(i[2]), canon(m[2])) is None and _diff(canon(i[3]), canon(m[3])) is None
+
+
+def preop_expected_error(case):
+    """first principles: the first operation that cannot be carried out decides (index out of range, no feature list, several strands)"""
+    g = case['b']
+    for o in case['ops']:
+        if o[0] == 'bmeta':
+            continue
+        if o[1] >= len(g[1]):
+            return 'IndexError'
+        if o[0] == 'smeta':
+            continue
+        fl = [p[1] for p in g[1][o[1]][3][1:] if p[0] == 'fts']
+        if not fl:
+            return 'KeyError'
+        if o[0] in ('frc', 'setlocs') and o[2] >= len(fl[0]) - 1:
+            return 'IndexError'
+        if o[0] == 'setlocs' and len(set(l[3] for l in o[3])) > 1:
+            return 'ValueError'
+    return None
+
+
+def spec_preop(case, got):
+    exp = preop_expected_error(case)
+    if exp is not None:
+        return None if isinstance(got, dict) and got['e'] == exp else 'an operation that cannot be carried out (%s expected) gave %r' % (exp, got if isinstance(got, dict) else 'a result')
+    if isinstance(got, dict):
+        return 'raised %s' % got['e']
+    d = _diff(canon(got[2]), canon(got[3]))
+    return ('basket with a history: as it was when written vs read back ' + d[:300]) if d else None
+
+
+def spec_flags(case, got):
+    """first principles: reversing swaps LEFT and RIGHT of each pair, twice is the identity; + <-> -"""
+    d = case['d']
+    bits = [(d >> k) & 1 for k in range(8)]
+    for a, b_ in ((0, 1), (2, 3), (4, 5)):
+        bits[a], bits[b_] = bits[b_], bits[a]
+    exp = sum(x << k for k, x in enumerate(bits))
+    if got != [exp, {'+': '-', '-': '+'}.get(case['s'], case['s'])]:
+        return 'Defect(%d)._reverse() / Strand(%r)._reverse() = %r' % (d, case['s'], got)
+    return None
+
+
+def g_preop_case(rng):
+    while True:
+        g = g_basket(rng, {}, rng.choice([1, 2, 2, 3]))
+        slots = _feature_slots(g)
+        if slots:
+            break
+    ops = []
+    for _ in range(rng.choice([1, 1, 2, 3, 4])):
+        i, j, ft = rng.choice(slots)
+        r = rng.random()
+        L = rng.choice([0, len(g[1][i][1]), 100, -5, 10 ** 9])
+        if r < 0.3:
+            ops.append(['frc', i if rng.random() < 0.95 else len(g[1]) + 1, j if rng.random() < 0.95 else 40, L])
+        elif r < 0.5:
+            ops.append(['flrc', i, L])
+        elif r < 0.7:
+            st = rng.choice(STRANDS)
+            locs = [g_loc(rng, st, {}, 1) for _ in range(rng.choice([1, 2, 3]))]
+            if len(locs) > 1 and rng.random() < 0.1:
+                locs[-1][3] = rng.choice([s for s in STRANDS if s != st])         # several strands: ValueError
+            ops.append(['setlocs', i, j, locs])
+        elif r < 0.88:
+            ops.append(['smeta', i, rng.choice(['a', 'note', 'x1', 'id', 'str', 'K\xfc', 'score', '_x']), g_val(rng, 2, rng.random() < 0.5, {})])
+        else:
+            ops.append(['bmeta', rng.choice(['a', 'note', 'run', 'self', '_p']), g_val(rng, 2, rng.random() < 0.5, {})])
+    return {'kind': 'preop', 'b': g, 'ops': ops}
+
+
 # ----------------------------------------------------------------------------- relational checks without the model
 def extra_checks(rng, tier, cov):
     """(1) the bundled GenBank example with strands/defects/location metadata set through the public API survives;
@@ -1909,4 +2137,50 @@ def extra_checks(rng, tier, cov):
         cov['pending_failed_write_state'] = st
     except Exception as e:                                            # pragma: no cover
         cov['pending_failed_write_state'] = 'error %s' % type(e).__name__
+    # (5) the format comes from the FILE NAME (no fmt=): multi-suffix names x several entry points, read back with the format detected
+    #     from the content.  Names that are SJSON only up to case may be refused by the writer (ValueError/OSError) or must round-trip.
+    import pathlib
+    NAMES = ['x.sjson', 'x.json', 'a.b.sjson', 'x.fasta.sjson', 'x.gb.json', 'x.tar.json', 'x.gff.sjson', 'x.sjson.json', 'x.json.sjson',
+             '.sjson', 'x..json', 'name with space.sjson', 'caf\xe9.sjson', 'x.stk.fa.json', 'UPPER.X.sjson', 'x.1.2.3.json', 'x.zip.sjson',
+             'x.txt.sjson', '-dash.json', 'x.sjson.bak.json', 'x.SJSON', 'x.Json', 'x.JSON', 'x.sJson']
+    g5 = g_basket(rng, {}, 2)
+    while not g5[1]:
+        g5 = g_basket(rng, {}, 2)
+    nn = 0
+    for name in (NAMES if tier == 'thorough' else rng.sample(NAMES, 10)):
+        for ep in ('basket', 'path', 'seq', 'mode_w'):
+            d = tempfile.mkdtemp(prefix='C14-', dir='/tmp')
+            try:
+                b = build(g5)
+                fn = os.path.join(d, name)
+                want = snap(b) if ep != 'seq' else snap(b.__class__([b[0]]))
+                want_meta = ep != 'seq'
+                try:
+                    if ep == 'basket':
+                        b.write(fn)
+                    elif ep == 'path':
+                        b.write(pathlib.Path(fn))
+                    elif ep == 'mode_w':
+                        b.write(fn, mode='w')
+                    else:
+                        b[0].write(fn)
+                except (ValueError, OSError) as e:
+                    if os.path.splitext(name)[1] not in ('.sjson', '.json'):
+                        continue                                  # no extension (dot file) / recognised only case-sensitively: refusing is fine
+                    raise
+                got = snap(read(fn))
+                nn += 1
+                a, c = canon(want), canon(got)
+                if not want_meta:
+                    a, c = a[1], c[1]                              # BioSeq.write: a basket of that one sequence, no basket metadata
+                dd = _diff(a, c)
+            except Exception as e:
+                dd = 'raised %s: %s' % (type(e).__name__, str(e)[:120])
+            finally:
+                shutil.rmtree(d, ignore_errors=True)
+            if dd:
+                yield {'case': {'kind': 'fname', 'name': name, 'entry': ep, 'b': g5}, 'impl': None, 'noshrink': True,
+                       'spec': 'written to %r through %s without fmt and read back: %s' % (name, ep, str(dd)[:300])}
+    cov['multi_suffix_name_checks'] = nn
     cov['relational_checks'] = n
+    cov['written_text_vs_gallina_printer'] = dict(TEXT_STATS)
